@@ -653,3 +653,23 @@ Definition Declared (ns : ns_map) (x : selector) : Prop := declared_b ns x = tru
 (* names for the extraction (the driver compares both normalizers) *)
 Definition sel_normalize (x : str) : str := normalize x.
 Definition tok_normalize (x : str) : str := Tokenizer.normalize x.
+
+(* ------------------------------------------------------------------ the Selector object under re-assignment
+   (l.783-792): seq / specificity are committed only `if wellformed:`; a rejected assignment (logged or raised)
+   leaves the object describing the selector it held before.                                                   *)
+Record held := mkHeld { h_spec : nat * nat * nat; h_seq : list item }.      (* h_seq = [] : nothing held yet *)
+Definition held0 : held := mkHeld (0, 0, 0)%nat [].
+Definition commit (h : held) (r : result) : held :=
+  match r with Accepted b c d q => mkHeld (b, c, d) q | Rejected => h end.
+(* one assignment of already pre-passed tokens; None = an uncaught non-DOM exception *)
+Definition assign_glued (ns : ns_map) (h : held) (glued : list stok) : option held :=
+  option_map (commit h) (run ns glued).
+Fixpoint assigns (ns : ns_map) (h : held) (hist : list (list (str * str))) : option held :=
+  match hist with
+  | [] => Some h
+  | ts :: r => match select ns ts with
+               | Some res => assigns ns (commit h res) r
+               | None => None
+               end
+  end.
+Definition assigns0 (ns : ns_map) (hist : list (list (str * str))) : option held := assigns ns held0 hist.
